@@ -38,6 +38,39 @@ host that are not below the replaced position keep identity and label -/
 theorem replace_keeps_other_nodes (t t' u : DTree) (p q : Path) (h : t.replace p u = some t')
     (hpq : ¬ p <+: q) (hqp : ¬ q <+: p) : t'.get q = t.get q := C16.replace_get_disjoint' t t' u p q h hpq hqp
 
+/-- the host's root is kept as a node of the result, and an accepted result of inserting into a
+result is again accepted-sound: in particular the root of the host survives with its identity and label -/
+theorem insertCheck_keeps_root (g : Grammar) (host ins r : DTree) (h : insertCheck g host ins r = true) :
+    ∃ q v, r.get q = some v ∧ v.id = host.id ∧ v.sym = host.sym := by
+  obtain ⟨_, _, hk, _⟩ := insertCheck_sound g host ins r h
+  obtain ⟨q, v, hq, hkn⟩ := hk [] host (by simp [DTree.get])
+  exact ⟨q, v, hq, hkn.1, hkn.2.1⟩
+
+/-- `KeepsNode` is reflexive and transitive: nodes kept by one insertion stay kept by the next one
+(insert_trees / connect_trees chain insertions) -/
+theorem keepsNode_refl (u : DTree) : KeepsNode u u :=
+  ⟨rfl, rfl, fun i s ks h => ⟨i, s, ks, h, rfl⟩⟩
+
+theorem keepsNode_trans (u v w : DTree) (h1 : KeepsNode u v) (h2 : KeepsNode v w) : KeepsNode u w := by
+  refine ⟨h2.1.trans h1.1, h2.2.1.trans h1.2.1, ?_⟩
+  intro i s ks hu
+  obtain ⟨j, s', ks', hv, hm⟩ := h1.2.2 i s ks hu
+  obtain ⟨j2, s2, ks2, hw, hm2⟩ := h2.2.2 j s' ks' hv
+  exact ⟨j2, s2, ks2, hw, hm2.trans hm⟩
+
+/-- chained insertions keep every node of the first host -/
+theorem insertCheck_chain (g : Grammar) (host ins1 r1 ins2 r2 : DTree)
+    (h1 : insertCheck g host ins1 r1 = true) (h2 : insertCheck g r1 ins2 r2 = true) :
+    r2.valid g = true ∧ r2.sym = host.sym ∧
+    (∀ p u, host.get p = some u → ∃ q v, r2.get q = some v ∧ KeepsNode u v) := by
+  obtain ⟨_, s1, k1, _⟩ := insertCheck_sound g host ins1 r1 h1
+  obtain ⟨v2, s2, k2, _⟩ := insertCheck_sound g r1 ins2 r2 h2
+  refine ⟨v2, s2.trans s1, ?_⟩
+  intro p u hu
+  obtain ⟨q, v, hq, hkv⟩ := k1 p u hu
+  obtain ⟨q', v', hq', hkv'⟩ := k2 q v hq
+  exact ⟨q', v', hq', keepsNode_trans u v v' hkv hkv'⟩
+
 /-! non-vacuity: the host `<s>(<a>("x"))` with `<s> ::= <a> | <a><s>`; inserting `<a>("y")` by self embedding -/
 def gEx : Grammar := [("<s>", [["<a>"], ["<a>", "<s>"]]), ("<a>", [["x"], ["y"]])]
 def host : DTree := .node 1 "<s>" [.node 2 "<a>" [.node 3 "x" []]]
